@@ -107,6 +107,16 @@ def check(pid, tier, seed, a):
     for m in P.get("modules", []):
         importlib.import_module(m)
     timeout = int(os.environ.get("HDCV_TIMEOUT_MS", "15000")) * (3 if tier == "thorough" else 1)
+    # solver budgets are wall-clock: on a machine that is busy with other work they are stretched by the load factor, so that a
+    # verdict does not flip because sixteen other processes share the cores (measured: at load 4 an obligation that needs 1.2 s
+    # of z3 time missed a 15 s budget)
+    try:
+        load = os.getloadavg()[0] / max(1, os.cpu_count() or 1)
+    except OSError:
+        load = 1.0
+    scale = min(8.0, max(1.0, load))
+    timeout = int(timeout * scale)
+    os.environ["HDCV_LOAD_SCALE"] = f"{scale:.2f}"
 
     # ---------------------------------------------------------------- deductive part
     results = []
@@ -134,6 +144,11 @@ def check(pid, tier, seed, a):
             o.func = "lemma:" + ln
             obls.append(o)
     smt.discharge(obls, timeout=timeout, use_cvc5=True)
+
+    xcheck = None
+    if tier == "thorough" and os.environ.get("HDCV_CROSS_CHECK", "1") != "0":
+        # thorough tier: an independent solver looks at what z3 discharged (z3 5.1 has had an unsound corner, DESIGN.md section 0.3)
+        xcheck = smt.cross_check(obls)
 
     crashes = [r for r in results if r.error and r.error[0] == "crash"]
     bindfail = [r for r in results if r.error and r.error[0] in ("binding", "unsupported")]
@@ -282,6 +297,8 @@ def check(pid, tier, seed, a):
             "extraction_drops": frontend.DROPPED,
             "bounded_standin": ({k: st_res.get(k) for k in ("bound", "evaluations", "distinct_nontrivial", "rule", "samples", "checks", "error", "wall_s", "notes")}
                                 if st_res else None),
+            "solver_budget_ms_per_encoding": timeout, "load_scale": scale,
+            "cross_check": xcheck,
             "proof_lost": proof_lost,
             "binding_failures": [r.error for r in bindfail],
             "not_proved_parts": P.get("not_proved", []),
@@ -318,7 +335,12 @@ def check(pid, tier, seed, a):
                 print(f"  {o.verdict:10s} {o.time:6.1f}s {o.id}  {o.detail[:200]}")
     print(f"[{pid}] obligations {n_discharged}/{n_proof_obl} discharged; functions {len(results)}; "
           f"stand-in evaluations {(st_res or {}).get('evaluations', 0)}; wall {ev['wall_s']}s")
-    if crashes or solver_err or vacuous or (st_res and st_res.get("error")):
+    if xcheck:
+        print(f"[{pid}] cross-check by {xcheck['solver']}: {xcheck['confirmed_unsat']} of {xcheck['attempted']} z3-discharged obligations confirmed unsat, "
+              f"{xcheck['undecided']} undecided, {xcheck['unsupported']} outside its input language, {len(xcheck['disagree'])} disagreements; {xcheck['seconds']}s")
+        for oid in xcheck["disagree"]:
+            print("CHECKER-ERROR solver disagreement (z3: unsat, cvc5: sat) on", oid)
+    if crashes or solver_err or vacuous or (st_res and st_res.get("error")) or (xcheck and xcheck["disagree"]):
         for r in crashes:
             print("CHECKER-ERROR", r.contract.short, r.error[1][:2000])
         for o in solver_err:
